@@ -461,6 +461,40 @@ func execC11(c *hlib.Ctx, tok []string) string {
 			c.Violation("unknown-name", fmt.Sprintf("LabelValues of an unknown label name: %v %v", v, err))
 		}
 		v, _ := h.IndexVersion()
+		// the header written to a file and mmapped (the way store gateways use it) answers as the
+		// in-memory one
+		if dir, err := os.MkdirTemp("", "verif-c11-hdr-"); err == nil {
+			hf, err := indexheader.NewBinaryReader(context.Background(), log.NewNopLogger(), ix.bkt, dir, ix.id, n, indexheader.NewBinaryReaderMetrics(nil))
+			if err != nil {
+				c.Violation("file-header-mismatch", "file-based header cannot be built: "+err.Error())
+			} else {
+				fnames, _ := hf.LabelNames()
+				bad := 0
+				if strings.Join(fnames, "\x00") != strings.Join(names, "\x00") {
+					bad++
+				}
+				for _, name := range append([]string{""}, ix.names...) {
+					a, _ := h.LabelValues(name)
+					b, _ := hf.LabelValues(name)
+					if strings.Join(a, "\x00") != strings.Join(b, "\x00") {
+						bad++
+					}
+					ra, erra := h.PostingsOffsets(name, ix.values[name]...)
+					rb, errb := hf.PostingsOffsets(name, ix.values[name]...)
+					if fmt.Sprint(ra, erra) != fmt.Sprint(rb, errb) {
+						bad++
+					}
+				}
+				if fv, _ := hf.IndexVersion(); fv != v {
+					bad++
+				}
+				if bad > 0 {
+					c.Violation("file-header-mismatch", fmt.Sprintf("%d answers of the mmapped header differ from the in-memory header", bad))
+				}
+				hf.Close()
+			}
+			os.RemoveAll(dir)
+		}
 		return fmt.Sprintf("names=%d symbols=%d pairs=%d version=%d", len(names), len(ix.symbols), len(ix.ranges), v)
 	}
 	return "bad-op"
